@@ -15,6 +15,7 @@ import PubgrubProofs.RangeQuery
 import PubgrubProofs.RangeRel
 import PubgrubProofs.RangeSet
 import PubgrubProofs.DisplayLaws
+import PubgrubProofs.DisplayString
 
 namespace Pubgrub.C15
 open Pubgrub Pubgrub.Range Bound
@@ -113,5 +114,28 @@ theorem C15_distinct_sets_print_differently (a b : Range V)
 /-! Non-vacuity -/
 example : Range.WF (Range.union (Range.between (1 : Nat) 2) (Range.singleton 5)) :=
   wf_union _ _ (wf_between 1 2 (by decide)) (wf_singleton 5)
+
+/-! ### the Display clause at the level of the string
+
+`CleanPrinter showV`: the version printer is injective, never empty and never produces a character of the
+range syntax (`' ' , | < > = * ∅`) — true of `u32` (`C15_cleanPrinter_nat`) and of `SemanticVersion` (digits
+and dots).  Then the TEXT determines the range: distinct ranges, a fortiori distinct sets, print
+differently. -/
+section StringLevel
+variable {T : Type} [DecidableEq T]
+
+theorem C15_display_string_injective (showV : T → String) (hp : CleanPrinter showV) (a b : Range T)
+    (h : Range.display showV a = Range.display showV b) : a = b :=
+  display_injective_string showV hp a b h
+
+theorem C15_distinct_sets_display_differently (showV : T → String) (hp : CleanPrinter showV) (a b : Range T)
+    [LT T] [LE T] [DecidableLT T] [DecidableLE T]
+    (hne : ∃ x, Range.contains a x ≠ Range.contains b x) :
+    Range.display showV a ≠ Range.display showV b :=
+  distinct_sets_display_differently showV hp a b hne
+
+theorem C15_cleanPrinter_nat : CleanPrinter (fun n : Nat => toString n) := cleanPrinter_nat
+
+end StringLevel
 
 end Pubgrub.C15
